@@ -227,7 +227,7 @@ def judge(rep, traces):
     rej_ids = {r[0] for r in rejects}
     missing = [p["id"] for p in probes if p["id"] not in rej_ids]
     if missing or not probes:
-        raise core.MachineryError("P accepted corrupted traces: %s" % missing)
+        core.probe_fail(rejects, "P accepted corrupted traces: %s" % missing)
     rep.extra["probes_rejected"] = len(probes)
     by_id = {t["id"]: t for t in traces}
     for tid, clause, rest in rejects:
